@@ -537,7 +537,33 @@ fn sentence_strategy(max_steps: usize) -> impl Strategy<Value = RawSentence> {
         0u8..4,
         prop::collection::vec(gstep_strategy(), 0..=max_steps),
     )
-        .prop_map(|(mask, timeout_idx, steps)| RawSentence { mask, timeout_idx, steps })
+        .prop_map(|(mask, timeout_idx, mut steps)| {
+            // value coupling: about a quarter of the items re-use a value of an earlier item (or its
+            // neighbour), so that relations between values of a sentence are not vanishingly rare
+            let mut recent: Vec<u8> = Vec::new();
+            for st in steps.iter_mut() {
+                if let GStep::Item { sel, kind, a, b, .. } = st {
+                    let link = sel.wrapping_mul(31) ^ kind.rotate_left(3);
+                    if !recent.is_empty() {
+                        let r = recent[(link as usize / 8) % recent.len()];
+                        match link % 8 {
+                            0 => *b = r,
+                            1 => *a = (*a & !127) | r as u16,
+                            2 => *a = (r as u16) << 7 | (*a & 127),
+                            3 => *b = r ^ 1,
+                            _ => {}
+                        }
+                    }
+                    recent.push((*a & 127) as u8);
+                    recent.push(*b & 127);
+                    recent.push((*a >> 7) as u8 & 127);
+                    while recent.len() > 9 {
+                        recent.remove(0);
+                    }
+                }
+            }
+            RawSentence { mask, timeout_idx, steps }
+        })
 }
 
 // ---------------------------------------------------------------------------------------------
